@@ -67,12 +67,26 @@ CHECKS = {
          "A regression bound, not a proof of sub-linear behaviour. The scanner grammar `indent` and the GLR grammar `glr` are not calibrated: on the reference tree they re-lex (almost) everything after the edit, so no meaningful bound exists (recorded in DESIGN.md).",
          "exhaustive enumeration of (language, size, edit position) with measured thresholds", "DESIGN.md §2 C12"),
 }
+# sentences added when families were added later (kept apart so that the table above stays readable)
+EXTRA = {
+ "C01": " The zoo includes a scanner whose tokens depend on their column (get_column) and one whose state flows across untouched siblings.",
+ "C03": " G7: every layout of per-production alias rows; G8: a two-action (reduce + shift) table entry in front of equal-core states.",
+ "C05": " Alternations of two and three branches are enumerated in every anchored child slot.",
+ "C08": " The edit alphabet includes multi-element appends behind a gap, so that nodes ending in a long repetition are reused whole and re-balanced.",
+ "C09": " UTF-16 is also delivered as raw bytes through the C read callback with every window of 4-9 bytes.",
+ "C11": " All nesting structures of <=8 (thorough 10) arrays and flat arrays of <=7 (9) numbers under multi-capture queries with predicates: the capture stream must be in document order.",
+ "C14": " Family (v): ordered pairs (thorough: triples) of tokens over large Unicode classes in subset/overlap relations.",
+ "C15": " Includes G7 and G8 of C03.",
+ "C17": " Two further recognised-name lists leave out one kind of local definition each (shadowing documents in the seeds).",
+ "C18": " The language has a scope whose last token is a reference.",
+}
 REASON_WIP = "check not built yet (work in progress; see DESIGN.md build order)"
 def main():
     checks = []
     for pid in ALL:
         if pid not in CHECKS: continue
         cat, text, note, tech, ref = CHECKS[pid]
+        text = text + EXTRA.get(pid, "")
         checks.append({
           "property_id": pid, "quick_cmd": f"./vf check {pid} quick", "thorough_cmd": f"./vf check {pid} thorough",
           "evidence_file": f"/verif/evidence/{pid}.json", "replay_cmd_template": "./vf replay {path}", "engine": "vf-engine",
